@@ -899,8 +899,15 @@ def ragListItems (ordered : Bool) : List (Int × Str) → Ctr → Int → Str
     else
       indent2 lvl ++ [45, 32] ++ txt ++ [10] ++ ragListItems ordered rest ctrs lvl
 
-/-- the text of the list chunk: `strings.TrimSpace` of the item lines -/
+/-- the text of the list chunk (after efed37d): the item lines without their trailing white
+space, `strings.TrimRightFunc(sb.String(), unicode.IsSpace)` — the indentation of a nested first
+item is part of the text -/
 def ragListText (ordered : Bool) (items : List (Int × Str)) : Str :=
+  trimRight (ragListItems ordered items [] (-1))
+
+/-- the text of the list chunk as the pinned code wrote it, `strings.TrimSpace` of the item
+lines (recorded for `rag_list_first_nested_pinned_counterexample`; nothing else uses it) -/
+def ragListTextPinned (ordered : Bool) (items : List (Int × Str)) : Str :=
   trim (ragListItems ordered items [] (-1))
 
 /-! ## `tabula.(*Extractor).ToMarkdownWithOptions`: the per-format dispatch -/
